@@ -198,7 +198,10 @@ pub struct TreeNode {
 impl Session {
     pub fn new(h: &History) -> Session {
         let dev = Dev::new(h.dev_size);
-        dev.with(|d| d.budget = h.cfg.budget);
+        dev.with(|d| {
+            d.budget = h.cfg.budget;
+            d.shortio = h.cfg.shortio;
+        });
         Session {
             dev,
             clock: Clock::new(h.cfg.clock),
@@ -390,15 +393,8 @@ impl Session {
                 dev.begin_op(fault);
                 let clock = self.clock.clone();
                 let (accdate, strict) = (self.cfg.accdate, self.cfg.strict);
-                let r = guarded(|| {
-                    Fs::new(
-                        dev.clone(),
-                        FsOptions::new()
-                            .time_provider(clock)
-                            .update_accessed_date(accdate)
-                            .strict(strict),
-                    )
-                });
+                let order = self.cfg.optorder;
+                let r = guarded(|| Fs::new(dev.clone(), build_options(order, clock, accdate, strict)));
                 return match r {
                     Ok(Ok(fs)) => {
                         let p = Box::into_raw(Box::new(fs));
@@ -859,6 +855,50 @@ impl Session {
             }
         }
         n
+    }
+}
+
+/// The mount options, built through one of several chains of builder calls (cfg `optorder=<k>`, k mod 8). Every chain
+/// asks for the same effective options — time provider `clock`, lossy OEM code page, `update_accessed_date = accdate`,
+/// `strict = strict` — but the chains differ in the ORDER of the setters and in WHICH setters are called at all
+/// (a setter whose value is the default may be left out; the default converter may be set explicitly), so that a
+/// setter that forgets or mixes up another field is noticed.
+fn build_options(order: u8, clock: Clock, accdate: bool, strict: bool) -> FsOptions<Clock, LossyOemCpConverter> {
+    let lossy = LossyOemCpConverter::new;
+    match order % 8 {
+        // the classic chain
+        0 => FsOptions::new().time_provider(clock).update_accessed_date(accdate).strict(strict),
+        // flags first, provider last
+        1 => FsOptions::new().update_accessed_date(accdate).strict(strict).time_provider(clock),
+        2 => FsOptions::new().strict(strict).update_accessed_date(accdate).time_provider(clock).oem_cp_converter(lossy()),
+        // converter in the middle
+        3 => FsOptions::new().update_accessed_date(accdate).oem_cp_converter(lossy()).strict(strict).time_provider(clock),
+        // only the setters that change a default (defaults: strict = true, update_accessed_date = false), then the provider
+        4 => {
+            let mut o = FsOptions::new();
+            if accdate {
+                o = o.update_accessed_date(true);
+            }
+            if !strict {
+                o = o.strict(false);
+            }
+            o.time_provider(clock)
+        }
+        // provider first, then only the non-default flags, converter last
+        5 => {
+            let mut o = FsOptions::new().time_provider(clock);
+            if !strict {
+                o = o.strict(false);
+            }
+            if accdate {
+                o = o.update_accessed_date(true);
+            }
+            o.oem_cp_converter(lossy())
+        }
+        // one flag on each side of the provider
+        6 => FsOptions::new().strict(strict).time_provider(clock).update_accessed_date(accdate).oem_cp_converter(lossy()),
+        // converter first
+        _ => FsOptions::new().oem_cp_converter(lossy()).update_accessed_date(accdate).time_provider(clock).strict(strict),
     }
 }
 
